@@ -74,8 +74,14 @@ def gen_config(r, index=None, subset_cycle=False, force_mode=None):
             'paths_in_config': [k for k in outputs if r.random() < 0.5] if r.random() < 0.25 else [],
             'folders': folder_layout(r, outputs),
             'junk': r.random() < 0.15,
+            'lmdb': mode == 'ocr' and 'lines' in outputs and r.random() < 0.25,
             'clock': {'inc': [r.choice([0.001, 0.05, 2.0]) for _ in range(3)],
                       'jumps': {str(r.randint(0, 30)): r.choice([-3600.0, 86400.0, -1.5])} if r.random() < 0.3 else {}}}
+    if plan['lmdb']:
+        # crops go into an LMDB environment (the folder name contains 'lmdb'): its own folder, named on the command line
+        plan['junk'] = False
+        plan['folders'] = {k: v for k, v in plan['folders'].items() if k != 'lines'}
+        plan['paths_in_config'] = [k for k in plan['paths_in_config'] if k != 'lines']
     return plan
 
 
@@ -313,7 +319,9 @@ def execute(plan, world_cls=PfWorld):
         seed_junk(world, os.path.join(world.root, 'gt'))
         gt_proc = world.simulate_process(os.path.join(world.root, 'gt'), gt_spec)
         gt_snap = snapshot(os.path.join(world.root, 'gt'))
-        if plan['mode'] == 'layout' and 'lines' in plan['outputs']:
+        if plan.get('lmdb'):
+            res.probe('lmdb_line_output')
+        if (plan['mode'] == 'layout' or plan.get('lmdb')) and 'lines' in plan['outputs']:
             # the detected lines are not known in advance: a page's crops are those of the uninterrupted run
             for p in ids:
                 exp[p]['lines'] = []
